@@ -26,8 +26,9 @@ var c09Cfg = kit.WorldCfg{
 }
 
 var c09IDs = map[string][]string{
-	"things":  {"id-th1", "id-th2", "id-th3", "id-th4"},
-	"targets": {"id-tg1", "id-tg2", "id-tg3"},
+	// some ids are proper prefixes of others: lookups must match ids exactly
+	"things":  {"id-th1", "id-th10", "id-th2", "id-th"},
+	"targets": {"id-tg1", "id-tg10", "id-tg"},
 	"owned":   {"id-ow1", "id-ow2", "id-ow3"},
 	"deps":    {"id-dp1", "id-dp2"},
 }
@@ -119,8 +120,24 @@ func genCorruption(t *rapid.T, l string, kind string, m *kit.Model, used map[str
 	storeU := []string{"things", "targets"}[rapid.IntRange(0, 1).Draw(t, l+"_store")]
 	ids := sortedIDs(m.Ents[storeU])
 	c := Corruption{Kind: kind}
+	// the nullable unique index on things.alias gets the same treatment as the non-nullable one on name
+	onAlias := storeU == "things" && strings.HasPrefix(kind, "unique-") && kind != "unique-wrong-target" && rapid.Bool().Draw(t, l+"_alias")
 	switch kind {
 	case "unique-missing":
+		if onAlias {
+			var with []string
+			for _, id := range ids {
+				if a := m.Ents[storeU][id].Alias; a != nil && *a != "" {
+					with = append(with, id)
+				}
+			}
+			id, ok := pickFrom(with)
+			if !ok {
+				return c, false
+			}
+			c.Store, c.ID, c.Field, c.Value = storeU, id, kit.FAlias, *m.Ents[storeU][id].Alias
+			return c, true
+		}
 		id, ok := pickFrom(ids)
 		if !ok {
 			return c, false
@@ -132,8 +149,15 @@ func genCorruption(t *rapid.T, l string, kind string, m *kit.Model, used map[str
 			return c, false
 		}
 		c.Store, c.ID, c.Field, c.Value = storeU, id, kit.FName, "ghost-val-"+l
+		if onAlias {
+			// the entity may well have a null alias: the extra entry is stale all the same
+			c.Field = kit.FAlias
+		}
 	case "unique-extra-missing-id":
 		c.Store, c.ID, c.Field, c.Value = storeU, "ghost-id-"+l, kit.FName, "ghost-val-"+l
+		if onAlias {
+			c.Field = kit.FAlias
+		}
 	case "unique-wrong-target":
 		if len(ids) < 2 {
 			return c, false
@@ -337,6 +361,25 @@ func (c Corruption) tokens() []string {
 }
 
 func (c Corruption) unfixable() bool { return strings.HasPrefix(c.Kind, "unfixable") }
+
+// hasToken reports whether tok occurs in text as a whole token (not as a prefix of a longer id such as id-th1 in id-th10)
+func hasToken(text, tok string) bool {
+	for i := 0; ; {
+		j := strings.Index(text[i:], tok)
+		if j < 0 {
+			return false
+		}
+		end := i + j + len(tok)
+		if end >= len(text) || !isIDChar(text[end]) {
+			return true
+		}
+		i = i + j + 1
+	}
+}
+
+func isIDChar(b byte) bool {
+	return b >= '0' && b <= '9' || b >= 'a' && b <= 'z' || b >= 'A' && b <= 'Z' || b == '-'
+}
 
 func typed(id string) []byte { return boltz.PrependFieldType(boltz.TypeString, []byte(id)) }
 
@@ -585,7 +628,7 @@ func runC09(c c09Case) kit.Result {
 	}
 	mentions := func(r report, toks []string) bool {
 		for _, tk := range toks {
-			if !strings.Contains(r.text, tk) {
+			if !hasToken(r.text, tk) {
 				return false
 			}
 		}
@@ -612,7 +655,7 @@ func runC09(c c09Case) kit.Result {
 		}
 		ok := false
 		for tok := range allTokens {
-			if strings.Contains(r.text, tok) {
+			if hasToken(r.text, tok) {
 				ok = true
 			}
 		}
@@ -648,7 +691,7 @@ func runC09(c c09Case) kit.Result {
 	for _, r := range reps2 {
 		ok := false
 		for _, tok := range unfixableTokens {
-			if strings.Contains(r.text, tok) {
+			if hasToken(r.text, tok) {
 				ok = true
 			}
 		}
@@ -663,7 +706,7 @@ func runC09(c c09Case) kit.Result {
 		}
 		found := false
 		for _, r := range reps2 {
-			if !r.fixed && strings.Contains(r.text, co.ID) {
+			if !r.fixed && hasToken(r.text, co.ID) {
 				found = true
 			}
 		}
